@@ -1202,8 +1202,14 @@ class Engine(object):
             posts = contract
             if cases:
                 whens = []
+                decided = False      # an earlier guard is literally true: later guards are never consulted (first match)
                 for i, case in enumerate(cases):
-                    w = ex.spec_bool(case["when"], pre_env) if case.get("when") else z3.BoolVal(True)
+                    if decided:
+                        w = z3.BoolVal(False)
+                    else:
+                        w = ex.spec_bool(case["when"], pre_env) if case.get("when") else z3.BoolVal(True)
+                        if z3.is_true(z3.simplify(w)):
+                            decided = True
                     whens.append(w)
                 ctx.emit("post", "post/cases-complete", z3.Or(whens), None)
                 for i, case in enumerate(cases):
